@@ -262,6 +262,12 @@ func (s *Server) blobUploadPost(repoStr string) http.HandlerFunc {
 		if dStr != "" {
 			_, err = io.Copy(bc, r.Body)
 			if err != nil {
+				if errors.Is(err, types.ErrNotFound) {
+					// the session ended (expired or evicted) while the body was being read
+					w.WriteHeader(http.StatusBadRequest)
+					_ = types.ErrRespJSON(w, types.ErrInfoBlobUploadUnknown("upload session not found"))
+					return
+				}
 				w.WriteHeader(http.StatusInternalServerError)
 				s.log.Info("failed to copy blob content", "repo", repoStr, "digest", dStr, "err", err)
 				return
@@ -424,6 +430,12 @@ func (s *Server) blobUploadPatch(repoStr, sessionID string) http.HandlerFunc {
 		// write bytes to blob
 		_, err = io.Copy(bc, r.Body)
 		if err != nil {
+			if errors.Is(err, types.ErrNotFound) {
+				// the session ended (expired, evicted, completed or cancelled by another request) while the body was being read
+				w.WriteHeader(http.StatusBadRequest)
+				_ = types.ErrRespJSON(w, types.ErrInfoBlobUploadUnknown("upload session not found"))
+				return
+			}
 			w.WriteHeader(http.StatusInternalServerError)
 			s.log.Error("failed to write blob", "err", err, "repo", repoStr, "sessionID", sessionID)
 			return
@@ -519,6 +531,12 @@ func (s *Server) blobUploadPut(repoStr, sessionID string) http.HandlerFunc {
 		// copy blob content
 		_, err = io.Copy(bc, r.Body)
 		if err != nil {
+			if errors.Is(err, types.ErrNotFound) {
+				// the session ended (expired, evicted, completed or cancelled by another request) while the body was being read
+				w.WriteHeader(http.StatusBadRequest)
+				_ = types.ErrRespJSON(w, types.ErrInfoBlobUploadUnknown("upload session not found"))
+				return
+			}
 			w.WriteHeader(http.StatusInternalServerError)
 			s.log.Error("failed to write blob", "err", err, "repo", repoStr, "sessionID", sessionID)
 			return
